@@ -145,7 +145,8 @@ class Merger(object):
         for i, (subdir, sc, st) in enumerate(
                 zip(self.subdirs, spike_clusters_l, spike_templates_l)):
             n_clu = int(np.max(sc)) + 1
-            n_tmp = int(np.max(st)) + 1
+            # NOTE: a probe may hold templates without any spike, including the last ones.
+            n_tmp = max(int(np.max(st)) + 1, np.load(str(subdir / 'templates.npy'), mmap_mode='r').shape[0])
             sc += coffset
             st += toffset
             self.cluster_offsets.append(coffset)
